@@ -36,6 +36,8 @@ pub enum ProtoAnswer {
     Disconnect,
     /// v5: disconnect_with(reason code)
     DisconnectWith(u8),
+    /// the handler itself closes the sink (close() / v5 close_with_reason(code)) and then acks
+    CloseSinkThenAck(Option<u8>),
     Err,
 }
 
